@@ -39,18 +39,31 @@ def main():
         patch = cur
     meta["files_changed"] = re.findall(r"^\+\+\+ b/(.*)$", patch, flags=re.M)
     env = dict(ENV, PYTHONPATH=wt, NUMBA_CACHE_DIR=f"/root/.cache/numba-seedcheck-{sid}")
+    # --suite-only: just the full suite on the changed tree; result kept in <delivery>/suite.json for a later --skip-suite run
+    if "--suite-only" in sys.argv:
+        rc, o = sh("/venv/bin/python -m pytest -q -p no:cacheprovider --timeout=900 -x --deselect tests/test_utils.py::TestPaths::test_permission_validation "
+                   "--deselect tests/test_utils.py::TestPaths::test_read_permission 2>&1 | tail -4", cwd=wt, env=env, timeout=3000)
+        m = re.search(r"(\d+) passed", o)
+        json.dump({"suite_tail": o.strip()[-300:], "suite_passed": int(m.group(1)) if m else 0, "suite_ok": bool(m) and " failed" not in o},
+                  open(f"{out}/suite.json", "w"))
+        print(sid, "suite:", o.strip().splitlines()[-1] if o.strip() else "?")
+        return
     # (1) demo with and without
     rc_with, o_with = sh(f"/venv/bin/python -W ignore {out}/demo.py", cwd=out, env=env, timeout=1200)
-    sh("git stash", cwd=wt)
+    sh(f"git apply -R {out}/patch.diff", cwd=wt)      # not `git stash`: the stash is shared between worktrees
     try:
         rc_wo, o_wo = sh(f"/venv/bin/python -W ignore {out}/demo.py", cwd=out, env=env, timeout=1200)
     finally:
-        sh("git stash pop", cwd=wt)
+        sh(f"git apply {out}/patch.diff", cwd=wt)
     meta["demo_exit_with_change"], meta["demo_exit_without_change"] = rc_with, rc_wo
     meta["demo_output_with_change"] = o_with[-600:]
     print(f"demo: with change -> {rc_with}, without -> {rc_wo}")
     # (2) full suite on the changed tree
-    if not skip_suite:
+    if skip_suite and os.path.exists(f"{out}/suite.json"):
+        meta.update(json.load(open(f"{out}/suite.json")))
+        skip_suite = False
+        print("suite (run earlier on this worktree):", meta["suite_tail"].splitlines()[-1])
+    elif not skip_suite:
         rc, o = sh("/venv/bin/python -m pytest -q -p no:cacheprovider --timeout=900 -x --deselect tests/test_utils.py::TestPaths::test_permission_validation "
                    "--deselect tests/test_utils.py::TestPaths::test_read_permission 2>&1 | tail -4", cwd=wt, env=env, timeout=3000)
         meta["suite_tail"] = o.strip()[-300:]
